@@ -51,7 +51,7 @@ class Ctx(object):
     cur = None
 
     def __init__(self, mode="int", W=None, decisions=(), todo=None, logic=None,
-                 index_limit=64, hash_limit=300, rlimit=0):
+                 index_limit=64, hash_limit=300, rlimit=0, timeout_ms=0):
         self.mode = mode
         self.W = W
         if mode == "bv":
@@ -60,6 +60,8 @@ class Ctx(object):
         self.solver = z3.SolverFor(logic) if logic else z3.Solver()
         if rlimit:
             self.solver.set("rlimit", rlimit)
+        if timeout_ms:
+            self.solver.set("timeout", timeout_ms)
         self.decisions = list(decisions)
         self.trace = []
         self.pc = []          # path condition (z3 Bool terms), includes preconditions
@@ -119,6 +121,19 @@ class Ctx(object):
     def feasible(self, c):
         r = self._check(c)
         return r != z3.unsat  # unknown => explore (conservative)
+
+    def decided(self, cond):
+        "True / False when the path condition already forces cond, else None (never forks)"
+        cond = z3.simplify(cond)
+        if z3.is_true(cond):
+            return True
+        if z3.is_false(cond):
+            return False
+        if self._check(z3.Not(cond)) == z3.unsat:
+            return True
+        if self._check(cond) == z3.unsat:
+            return False
+        return None
 
     def _next_decision(self, kind):
         k = len(self.trace)
@@ -446,7 +461,7 @@ class SInt(object):
             return SInt(s.t / o.t, lo, hi)   # z3 Int div floors for positive divisors
         if o.lo == o.hi and (o.lo & (o.lo - 1)) == 0:
             return SInt(s.t >> (o.lo.bit_length() - 1), lo, hi)
-        q = z3.SDiv(s.t, o.t)      # truncates toward zero
+        q = s.t / o.t              # bvsdiv: truncates toward zero
         r = z3.SRem(s.t, o.t)      # sign of dividend
         q = z3.If(z3.And(r != 0, r < 0), q - 1, q)
         return SInt(q, lo, hi)
@@ -630,6 +645,13 @@ class SInt(object):
         o = _int(o)
         if o < 0:
             raise ValueError("negative shift count")
+        if o >= max(abs(s.lo), abs(s.hi)).bit_length():
+            # every bit is shifted out: 0 for non-negative values, -1 for negative ones
+            if s.lo >= 0:
+                return 0
+            if s.hi < 0:
+                return -1
+            return SInt(z3.If(s.t < 0, ctx.val(-1), ctx.val(0)), -1, 0)
         if ctx.mode == "int":
             return SInt(s.t / (1 << o), s.lo >> o, s.hi >> o)
         if o >= ctx.W:
@@ -822,7 +844,7 @@ class PathResult(object):
 
 
 def explore(body, mode="int", W=None, logic=None, maxpaths=20000, index_limit=64,
-            hash_limit=300, rlimit=0, before_path=None):
+            hash_limit=300, rlimit=0, before_path=None, timeout_ms=0):
     """Run body(ctx) along every feasible path.  Yields PathResult objects.
 
     body returns the postcondition (bool / SBool / z3 Bool / dict of those); an ordinary
@@ -836,7 +858,7 @@ def explore(body, mode="int", W=None, logic=None, maxpaths=20000, index_limit=64
         if n > maxpaths:
             raise OutOfReach("more than %d paths" % maxpaths)
         ctx = Ctx(mode=mode, W=W, decisions=dec, todo=todo, logic=logic,
-                  index_limit=index_limit, hash_limit=hash_limit, rlimit=rlimit)
+                  index_limit=index_limit, hash_limit=hash_limit, rlimit=rlimit, timeout_ms=timeout_ms)
         Ctx.cur = ctx
         if before_path is not None:
             before_path()
